@@ -215,8 +215,10 @@ func (s asciiString) ToInteger() int64 {
 	if err != nil {
 		f, err := s._toFloat(ss)
 		if err == nil {
-			return int64(f)
+			return floatToIntClip(f)
 		}
+		// not a numeric string at all (ParseInt may have left MaxInt64 in i on overflow before the bad character)
+		return 0
 	}
 	return i
 }
